@@ -51,7 +51,7 @@ def run(ctx):
     cr = ctx.func(BC + "._cancelRequest")
 
     # ---- R1 table discipline
-    r = ctx.rule("R1", "insert only after the duplicate test; every fire of a request Deferred follows removal of its entry", 6, "A+B")
+    r = ctx.rule("R1", "insert only after the duplicate test; every fire of a request Deferred follows removal of its entry", 4, "A+B")
     cm = ctx.cfg(mk)
     fm = ctx.facts(mk)
     ins = [n for n, _k, _v in table_stores(ctx, mk, "self.requests")]
